@@ -229,15 +229,29 @@ def ref_strip(line):
             return line[:i]
     return line
 
+def ref_strip_carry(lines):
+    """comment stripping with the quote parity carried over line ends (a string literal that runs over a line
+    end stays a string literal on the next line)"""
+    q = 0; out = []
+    for l in lines:
+        cut = None
+        for i, c in enumerate(l):
+            if c == '"': q += 1
+            elif c == '%' and q % 2 == 0:
+                cut = i; break
+        out.append(l if cut is None else l[:cut])
+    return out
+
 def ref_lex(src, multiline=False):
     """-> (tokens [(kind, value, line, line feeds inside earlier string tokens)], number of lines).
     kinds: name str int { } bad unspec.  Default reading (BibTeX's): a string literal ends on its line.
-    multiline=True: the comment-stripped lines are joined and a string literal runs to the next double quote,
-    wherever that is."""
+    multiline='line' / 'carry': the comment-stripped lines are joined and a string literal runs to the next double
+    quote, wherever that is ('line': the quote parity that decides what a comment is starts afresh on every line,
+    'carry': it is carried over line ends)."""
     lines = re.split('\r\n|\n|\r', src)
     toks = []
     if multiline:
-        text = '\n'.join(ref_strip(l) for l in lines)
+        text = '\n'.join(ref_strip_carry(lines) if multiline == 'carry' else [ref_strip(l) for l in lines])
         chunks = [(text, 1)]
     else:
         chunks = [(l, k) for k, l in enumerate(lines, 1)]
@@ -346,18 +360,23 @@ def judge(src, out, exact_names_of=None):
         if r[0] == 'unspec' and ('conversion limit' in r[1] or 'deeper' in r[1]):
             return None
         return 'a foreign (non-pybtex) exception escaped the parser'
-    open_line = None
+    ranges = None
     if r[0] == 'unspec':
         if r[1] != 'open string':
             return None
-        # a string literal left open at a line end, and a double quote further down: BibTeX's reading puts the
-        # error on that line; pybtex lets the literal run on.  Either line is accepted; nothing else is.
-        open_line = r[2]
-        r = ref_parse(src, multiline=True)
-        if r[0] == 'unspec':
+        # a string literal that runs over a line end ("... regardless of whitespace, line breaks"): it runs to the
+        # next double quote.  What a percent sign on its later lines means depends on whether the quote parity is
+        # carried over the line end; the property does not say, so a demand is made only where both readings agree.
+        ra = ref_parse(src, multiline='line')
+        rb = ref_parse(src, multiline='carry')
+        if ra[0] == 'unspec' or rb[0] == 'unspec' or ra[0] != rb[0]:
             return None
-        if r[0] == 'ok':
-            return None
+        if ra[0] == 'ok':
+            if upper_names(ra[1]) != upper_names(rb[1]):
+                return None
+        else:
+            ranges = [(ra[1], ra[2]), (rb[1], rb[2])]
+        r = ra
     if r[0] == 'ok':
         if out[0] != 0:
             return 'well-formed source rejected (line %s): expected %d commands' % (out[2] if len(out) > 2 else '?', len(r[1]))
@@ -365,11 +384,13 @@ def judge(src, out, exact_names_of=None):
             return 'parsed program differs from the program the source spells'
         return None
     _, lo, hi, kind, sw = r
+    if ranges is None:
+        ranges = [(lo, hi)]
     if out[0] == 0:
         return 'malformed source (%s, line %d) accepted without an error' % (kind, lo)
     if out[1] not in (1, 2, 3):
         return 'malformed source rejected, but not with a syntax error'
-    if lo <= out[2] <= hi or out[2] == open_line:
+    if any(a <= out[2] <= b for a, b in ranges):
         return None
     return 'the syntax error names line %d, the offending token is on line %s' % (out[2], lo if lo == hi else '%d..%d' % (lo, hi))
 
@@ -504,7 +525,7 @@ ASSUMPTIONS = ['letters and digits are ASCII (DESIGN.md 2.2): str.upper of a non
                'integer literals have at most 4300 digits (CPython refuses longer ones with a ValueError; the model says Crash there, the theorems assume the bound)',
                'function bodies nest at most 150 deep (the recursion of parse_group is unguarded; CPython raises RecursionError between 500 and 1000 levels)']
 PARTIAL = ['parse_stream / parse_file agree with parse_string: proved on printed sources (entry_points_agree); on arbitrary sources correspondence (fn 3, 4, 9) and the oracle only',
-           'a string literal left open at a line end with a quote further down: the oracle accepts the line of the open literal (BibTeX reading) or the line under the multi-line reading (pybtex); which of the two is right the property does not say',
+           'a string literal that runs over a line end: the oracle demands the spelt program / the real line only where the two comment readings (quote parity per line, or carried over line ends) agree',
            'non-ASCII letters/digits, integer literals beyond 4300 digits and nesting beyond 150 levels are outside the claimed domain']
 
 UNITS = ['READ', 'sort', 'EXECUTE', 'MACRO', 'foo', '{', '}', '#1', '"s"', "'q", ' ', '\n', '%c"\n']
@@ -541,7 +562,7 @@ def nontrivial(fn, a, out):
 
 # ---- generators
 NAMES = ['x', 'y.z$', ':=', '+', '-', '*', '=', '<', '>', 'a.b', 'if$', 'skip$', "it's", 'a@b', '\\foo', '[1]', '2x', '-5', 'n~', '$', 'e.g.,', 'a(b)', '&|!', '^_`']
-STRS = ['', 'a', 'a%b', '100% sure', '{', '}', '#1', ' x ', "it's", '% not a comment', 'a{b}c', '\\"o', ', ', 'x\ty', '€ → °']
+STRS = ['', 'a', 'a\nb', 'two\n  lines', '\n', 'a%b', '100% sure', '{', '}', '#1', ' x ', "it's", '% not a comment', 'a{b}c', '\\"o', ', ', 'x\ty', '€ → °']
 CMDS = list(ARITY)
 WS = [' ', '\t', '\n', '\x0b', '\x0c', '\r', '\x1c', '\x1d', '\x1e', '\x1f', '\x85', '\xa0', ' ', ' ', ' ', ' ', ' ', ' ', ' ', ' ', '　']
 COMMENTS = ['%', '% c', '%"', '% "quoted" {', '%}', '%%', '% ENTRY {', '%\t#x']
@@ -638,6 +659,7 @@ PINNED_SRC = [
     'EXECUTE {"a\nb" c}\n#',                     # F29 (fixed by 6970deb)
     'EXECUTE {"a\n\n\nb" "c\nd"}\n\nfoo',         # F29
     'EXECUTE {"a\nb"}\n{',                       # F29
+    'EXECUTE {"a\nb"}', 'FUNCTION {f} {"x\n\ny" #1}\nREAD', 'EXECUTE {"a\nb"} % c\nREAD', 'EXECUTE {"a\nb%c"}', 'EXECUTE {"a\nb" c}\n\n#',   # string literals over line ends
     'ENTRY {a}{b}', 'ENTRY {a}{b}\n\n\n', 'read sort', 'foo', '\n\n{', 'EXECUTE {"a\nb" c}\n#',
     "EXECUTE {#-0 #007 'a ' a%b\n}", 'EXECUTE{x}%c', 'EXECUTE{x}%c\n', 'READ%', 'READ %"\nSORT',
     'FUNCTION {f}{ "100% sure" % real comment " { \n }', 'FUNCTION{f}{a#1}', 'FUNCTION{f}{a#b}', 'FUNCTION{f}{#1#2 #-3"s"t}',
